@@ -41,6 +41,18 @@ func (in *Interp) findByName(name string, fn *ssa.Function) intrinsic {
 			return in.callFn(hf, args, nil, in.curFrame)
 		}
 	}
+	if target, ok := in.P.Links[name]; ok && fn.Blocks == nil {
+		// go:linkname'd declaration in a harness: call the real function
+		i := strings.LastIndex(target, ".")
+		if pkg := in.P.Pkgs[target[:i]]; pkg != nil {
+			if tf := pkg.Func(target[i+1:]); tf != nil {
+				return func(in *Interp, _ *ssa.Function, args []Value) Value {
+					return in.callFn(tf, args, nil, in.curFrame)
+				}
+			}
+		}
+		panic("go:linkname target not found: " + target)
+	}
 	if in.P.Nops[name] {
 		return func(in *Interp, fn *ssa.Function, _ []Value) Value { return zeroResults(fn) }
 	}
